@@ -276,6 +276,8 @@ class BaseMDA(ProcessDiscipline):
     def scaling(self, scaling: ResidualScaling) -> None:
         # This setter will be overloaded in certain child classes.
         self._scaling = scaling
+        # The data used to scale the residuals depend on the scaling method.
+        self._scaling_data = None
 
     def _initialize_grammars(self) -> None:
         """Define the grammars as the union of the disciplines' grammars."""
